@@ -25,6 +25,8 @@ def scratch():
 def apply(d, edits):
     for (f, old, new) in edits:
         p = os.path.join(d, f)
+        if not os.path.exists(p):
+            return False
         s = open(p).read()
         if old not in s:
             return False
